@@ -12,6 +12,7 @@ import (
 	"io"
 	"net"
 	"os"
+	"strings"
 	"sync"
 	"testing"
 	"time"
@@ -175,8 +176,12 @@ func drain(m *monitor, sessions []*session, wait time.Duration) {
 }
 
 func setup(r *vh.Runner, c *vh.Case, rng *vh.Rand, nSess int) (*fix.World, []*session, bool) {
+	return setupTweak(r, c, rng, nSess, nil)
+}
+
+func setupTweak(r *vh.Runner, c *vh.Case, rng *vh.Rand, nSess int, tweak func(*transport.ServerConfig)) (*fix.World, []*session, bool) {
 	cv := &transport.VerifyConfig{}
-	w := fix.NewWorld(true, cv, nil)
+	w := fix.NewWorld(true, cv, tweak)
 	cv.Store = w.PKI.Store()
 	id := w.PKI.Issue(certs.RawStringName("client"))
 	var sessions []*session
@@ -589,7 +594,9 @@ func scheduleRun(r *vh.Runner, c *vh.Case, i int) {
 	}
 }
 
-func sameUDP(a, b *net.UDPAddr) bool { return a != nil && b != nil && a.Port == b.Port && a.IP.Equal(b.IP) }
+func sameUDP(a, b *net.UDPAddr) bool {
+	return a != nil && b != nil && a.Port == b.Port && a.IP.Equal(b.IP)
+}
 
 // offlineWire: counters of genuinely sent packets are pairwise distinct per
 // (session, direction); no known plaintext window appears in any datagram.
@@ -797,14 +804,23 @@ func genC15(r *vh.Runner) {
 // wire log shows where it went.
 func roamRun(r *vh.Runner, c *vh.Case, i int) {
 	rng := vh.NewRand(r.Seed, "c15", i)
-	w, sessions, ok := setup(r, c, rng, 1)
+	// in some histories the follower (the server) has a tiny receive queue that
+	// nobody drains: genuine packets are authenticated, then dropped for lack
+	// of room - the address they came from still counts
+	smallQueue := rng.Chance(0.25)
+	var tweak func(*transport.ServerConfig)
+	if smallQueue {
+		tweak = func(sc *transport.ServerConfig) { sc.MaxBufferedPacketsPerConnection = 3 }
+	}
+	w, sessions, ok := setupTweak(r, c, rng, 1, tweak)
 	if !ok {
 		teardown(w, sessions)
 		return
 	}
 	defer teardown(w, sessions)
 	s := sessions[0]
-	serverFollows := rng.Bool()
+	serverFollows := rng.Bool() || smallQueue
+	var recorded [][]byte // every genuine packet of the mover seen on the wire
 	role := "client-follows-server"
 	var follower, mover mconn
 	var moverEP, followerEP *simnet.Endpoint
@@ -842,7 +858,7 @@ func roamRun(r *vh.Runner, c *vh.Case, i int) {
 		r.Count("steps:"+step, 1)
 		if dst != expected.String() {
 			sig := "C15:traffic-redirected-by:" + step
-			if step == "genuine-from-new-address" || step == "genuine-first-delivered-via-other-address" {
+			if strings.HasPrefix(step, "genuine-from-new-address") || strings.HasPrefix(step, "genuine-first-delivered-via-other-address") {
 				sig = "C15:address-not-followed-after:" + step
 			}
 			c.Violate(sig+":"+role, map[string]any{"step": step, "sent_to": dst, "expected": expected.String(), "history": history})
@@ -859,6 +875,7 @@ func roamRun(r *vh.Runner, c *vh.Case, i int) {
 				return []simnet.Delivery{{Data: d.Data, Src: d.Src, Dst: d.Dst, Tag: "genuine"}}
 			}
 			lastGenuine = append([]byte(nil), d.Data...)
+			recorded = append(recorded, lastGenuine)
 			switch plan {
 			case "via-other-address":
 				return []simnet.Delivery{{Data: d.Data, Src: t, Dst: d.Dst, Tag: "genuine-first-via-third"}}
@@ -890,7 +907,39 @@ func roamRun(r *vh.Runner, c *vh.Case, i int) {
 	}
 	for k := 0; k < steps; k++ {
 		step := ""
-		switch rng.Intn(10) {
+		switch rng.Intn(12) {
+		case 10, 11:
+			// a burst that moves the counter across one or more 64-counter block
+			// boundaries, then an earlier genuine packet again from a third address
+			step = "earlier-genuine-replayed-from-third-address-after-burst"
+			var old []byte
+			if len(recorded) > 0 {
+				old = recorded[rng.Intn(len(recorded))]
+			}
+			for q := rng.Pick(20, 70, 70, 130, 200); q > 0; q-- {
+				seq++
+				mover.WriteMsg(build(r.Seed, msgID{0, 8, 8, seq}, hdrLen))
+			}
+			expected = moverEP.Source()
+			bub.Settle(5 * time.Millisecond)
+			buf := make([]byte, 4096)
+			for {
+				follower.SetReadDeadline(time.Now().Add(time.Millisecond))
+				if _, err := follower.ReadMsg(buf); err != nil {
+					break
+				}
+			}
+			follower.SetReadDeadline(time.Time{})
+			if smallQueue { // fill it up again
+				for q := 0; q < 5; q++ {
+					seq++
+					mover.WriteMsg(build(r.Seed, msgID{0, 8, 8, seq}, hdrLen))
+				}
+				bub.Settle(2 * time.Millisecond)
+			}
+			if old != nil {
+				w.Net.Inject(simnet.Delivery{Data: old, Src: third(), Dst: followerAddr, Tag: "replay-earlier"})
+			}
 		case 0, 1:
 			step = "genuine-from-new-address"
 			na := third()
@@ -952,6 +1001,9 @@ func roamRun(r *vh.Runner, c *vh.Case, i int) {
 			}
 		}
 		bub.Settle(5 * time.Millisecond)
+		if smallQueue {
+			step += ":receive-queue-full"
+		}
 		history = append(history, step)
 		if !probe(step) {
 			return
